@@ -93,28 +93,28 @@ def main(args=None):
         default=False,
         help='saves minified version of combined files, defaults to False',
     )
-    options, path = parser.parse_args()
+    options, path = parser.parse_args(args)
 
     if options.url:
-        print(
-            csscombine(
-                url=options.url,
-                sourceencoding=options.sourceencoding,
-                targetencoding=options.targetencoding,
-                minify=options.minify,
-            )
+        result = csscombine(
+            url=options.url,
+            sourceencoding=options.sourceencoding,
+            targetencoding=options.targetencoding,
+            minify=options.minify,
         )
     elif path:
-        print(
-            csscombine(
-                path=path[0],
-                sourceencoding=options.sourceencoding,
-                targetencoding=options.targetencoding,
-                minify=options.minify,
-            )
+        result = csscombine(
+            path=path[0],
+            sourceencoding=options.sourceencoding,
+            targetencoding=options.targetencoding,
+            minify=options.minify,
         )
     else:
         parser.error('no path or URL (-u) given')
+    # the combined sheet as it is (bytes in the target encoding)
+    sys.stdout.flush()
+    sys.stdout.buffer.write(result + b'\n')
+    sys.stdout.buffer.flush()
 
 
 if __name__ == '__main__':
